@@ -1468,6 +1468,10 @@ fn wake_send_waiters<T>(waiters: &mut LinkedList<SendWaitQueueEntry<T>>) {''',
      'expect': {'C17': ['C17.R1']}},
     {'name': 'composed-RF45-grant-does-not-set-lock', 'patch': 'selftest/composed/RF45-grant-does-not-set-lock.diff',
      'expect': {'C02': ['C02.R1', 'C02.R2']}},
+    {'name': 'composed-RF53-fair-handover-picks-newest-waiter', 'patch': 'selftest/composed/RF53-fair-handover-picks-newest-waiter.diff',
+     'expect': {'C04': ['C04.R2'], 'C03': ['C03.R1', 'C03.R2']}},
+    {'name': 'composed-RF56-notified-receiver-waker-dropped', 'patch': 'selftest/composed/RF56-notified-receiver-waker-dropped.diff',
+     'expect': {'C10': ['C10.R1', 'C10.R5']}},
     {'name': 'seed-first-poll-enqueues-under-second-lock', 'patch': 'seeded/C06-first-poll-enqueues-under-second-lock/patch.diff',
      'expect': {'C06': ['C06.W'], 'C05': ['C05.W']}},
 ]
@@ -1808,6 +1812,13 @@ impl<'a, MutexType, T> FusedFuture for ChannelReceiveFuture<'a, MutexType, T> {'
     {'name': 'benign-refactor-RF50-state-broadcast-futures-6', 'props': ALLP + ['C16'], 'patch': 'benign/RF50/patch.diff'},
     {'name': 'benign-refactor-RF51-containers-6', 'props': ALLP + ['C16'], 'patch': 'benign/RF51/patch.diff'},
     {'name': 'benign-refactor-RF52-mutex-sync-outcome-enum', 'props': ALLP + ['C16'], 'patch': 'benign/RF52/patch.diff'},
+    {'name': 'benign-refactor-RF53-mutex-7', 'props': ALLP + ['C16'], 'patch': 'benign/RF53/patch.diff'},
+    {'name': 'benign-refactor-RF54-semaphore-7', 'props': ALLP + ['C16'], 'patch': 'benign/RF54/patch.diff'},
+    {'name': 'benign-refactor-RF55-event-timer-7', 'props': ALLP + ['C16'], 'patch': 'benign/RF55/patch.diff'},
+    {'name': 'benign-refactor-RF56-mpmc-7', 'props': ALLP + ['C16'], 'patch': 'benign/RF56/patch.diff'},
+    {'name': 'benign-refactor-RF57-oneshots-7', 'props': ALLP + ['C16'], 'patch': 'benign/RF57/patch.diff'},
+    {'name': 'benign-refactor-RF58-state-broadcast-futures-7', 'props': ALLP + ['C16'], 'patch': 'benign/RF58/patch.diff'},
+    {'name': 'benign-refactor-RF59-containers-7', 'props': ALLP + ['C16'], 'patch': 'benign/RF59/patch.diff'},
     {'name': 'benign-unrelated-additions', 'props': ALLP, 'edits': [
         {'file': 'src/sync/semaphore.rs',
          'old': '''    /// Returns the amount of permits that are available on the semaphore
